@@ -79,6 +79,12 @@ def int_cases(ctx, rng):
                 l_, b_ = outcome(int_to_little_endian, n, w), outcome(int_to_big_endian, n, w)
                 cases.append({"id": "fx%d.%d" % (i, w), "kind": "fixed", "n": le(n), "w": w, "le": B(l_[1]) if l_[0] == "ok" else [], "be": B(b_[1]) if b_[0] == "ok" else [],
                               "le_back": le(little_endian_to_int(l_[1])) if l_[0] == "ok" else [9], "be_back": le(big_endian_to_int(b_[1])) if b_[0] == "ok" else [9]})
+    # a value one past the width boundary has no encoding of that width: encoding must refuse, not wrap around
+    for w in (1, 2, 4, 8):
+        for j2, n in enumerate((256 ** w, 256 ** w + 5, 256 ** (w + 1) - 1)):
+            l_, b_ = outcome(int_to_little_endian, n, w), outcome(int_to_big_endian, n, w)
+            cases.append({"id": "fo%d.%d" % (w, j2), "kind": "fixed-overflow", "n": le(n), "w": w, "le_ok": l_[0] == "ok", "be_ok": b_[0] == "ok"})
+            ctx.nontriv(("fixed-overflow", w))
     for j, ln in enumerate([0, 1, 252, 253, 254, 255, 256, 65535, 65536]):
         s = bytes([j + 1]) * ln
         enc = outcome(encode_varstr, s)
